@@ -627,6 +627,15 @@ class Interp:
                 f = {"Add": x + y, "AddUnchecked": x + y, "Sub": x - y, "SubUnchecked": x - y, "Mul": x * y,
                      "BitAnd": x & y, "BitOr": x | y, "BitXor": x ^ y}[op]
                 return Int(f, a.ty)
+            if op in ("Shl", "Shr", "ShlUnchecked", "ShrUnchecked") and 0 <= y < 128:
+                ty = lty or a.ty
+                m_ = re.match(r"^([iu])(8|16|32|64|128|size)$", ty or "")
+                if m_:
+                    bits = 64 if m_.group(2) == "size" else int(m_.group(2))
+                    if y < bits:
+                        lo = -(1 << (bits - 1)) if m_.group(1) == "i" else 0
+                        f = (x << y) if op.startswith("Shl") else (x >> y)        # python's >> is arithmetic on negatives, as Rust's on signed types
+                        return Int((f - lo) % (1 << bits) + lo, a.ty)
             if op in ("AddWithOverflow", "SubWithOverflow", "MulWithOverflow"):
                 f = {"AddWithOverflow": x + y, "SubWithOverflow": x - y, "MulWithOverflow": x * y}[op]
                 # the overflow flag is exact when the operand type's range is known (`128u32 - 128 - 128` overflows)
@@ -1313,7 +1322,16 @@ def _res_is(which):
     return model
 
 
+def _unwrap_or(it, p, fid, fn, t, args):
+    a = args[0]
+    if isinstance(a, Variant) and a.adt in ("core::result::Result", "core::option::Option"):
+        return a.fields[0] if a.name in ("Ok", "Some") else args[1]
+    return NotImplemented
+
+
 DEFAULT_MODELS = {
+    "core::result::Result::unwrap_or": _unwrap_or,
+    "core::option::Option::unwrap_or": _unwrap_or,
     "core::str::<impl str>::parse": _str_parse_int,
     "core::result::Result::is_ok": _res_is("Ok"),
     "core::result::Result::is_err": _res_is("Err"),
